@@ -100,7 +100,7 @@ Proof.
   intros H. unfold dec_cursor. destruct (mid_ok data 2 1) as [body ->]; [lia|]. total_cases.
 Qed.
 
-Theorem dec_decmode_total ms ss data : (5 <= length data)%nat -> exists r, dec_decmode ms ss data = Ok r.
+Theorem dec_decmode_total tb data : (5 <= length data)%nat -> exists r, dec_decmode tb data = Ok r.
 Proof.
   intros H. unfold dec_decmode. destruct (mid_ok data 3 2) as [body ->]; [lia|]. total_cases.
 Qed.
@@ -110,10 +110,137 @@ Proof.
   intros H. unfold dec_devattrs. destruct (mid_ok data 3 1) as [body ->]; [lia|]. total_cases.
 Qed.
 
-Theorem dec_sgr_total data : (3 <= length data)%nat -> exists r, dec_sgr data = Ok r.
+(* ---- sgr_color / sgr_face: total when the palette tables have the sizes the code indexes ---- *)
+
+Definition tabs_ok (tb : dtabs) : bool :=
+  Nat.eqb (length (dt_cube tb)) 6 && Nat.eqb (length (dt_greys tb)) 24 && Nat.eqb (length (dt_colors tb)) 16.
+
+Lemma tab_ok {A} (l : list A) i : (N.to_nat i < length l)%nat -> exists a, tab l i = Ok a.
 Proof.
-  intros H. unfold dec_sgr. destruct (mid_ok data 2 1) as [body ->]; [lia|]. total_cases.
+  intros H. unfold tab. destruct (nth_error l (N.to_nat i)) eqn:E; [eexists; reflexivity|].
+  apply nth_error_None in E. lia.
 Qed.
+
+Section SgrTotal.
+  Variable tb : dtabs.
+  Hypothesis Htabs : tabs_ok tb = true.
+
+  Lemma tabs_lengths : length (dt_cube tb) = 6%nat /\ length (dt_greys tb) = 24%nat /\ length (dt_colors tb) = 16%nat.
+  Proof.
+    pose proof Htabs as H. unfold tabs_ok in H. apply andb_prop in H. destruct H as [H H3].
+    apply andb_prop in H. destruct H as [H1 H2]. apply Nat.eqb_eq in H1, H2, H3. auto.
+  Qed.
+
+  Lemma take1_len l : (length (snd (take1 l)) <= length l)%nat.
+  Proof. destruct l; cbn; lia. Qed.
+
+  Lemma sgr_color_total cmds sub :
+    exists c r, sgr_color tb cmds sub = Ok (c, r) /\ (length r <= length cmds)%nat.
+  Proof.
+    destruct tabs_lengths as (Hc & Hg & Hl).
+    unfold sgr_color. destruct cmds as [|c0 r0]; [exists None, []; split; [reflexivity|cbn; lia]|].
+    destruct (number_decode c0) as [k|]; [|exists None, r0; split; [reflexivity|cbn; lia]].
+    destruct (k =? 5).
+    - destruct r0 as [|c1 r1]; [exists None, []; split; [reflexivity|cbn; lia]|].
+      destruct (number_decode c1) as [index|]; [|exists None, r1; split; [reflexivity|cbn; lia]].
+      destruct (N.ltb_spec index 16).
+      + destruct (tab_ok (dt_colors tb) index) as [c ->]; [lia|]. cbn [bind].
+        eexists; eexists; split; [reflexivity|cbn; lia].
+      + destruct (N.ltb_spec index 232).
+        * set (i := index - 16). set (ri := i / 36). set (i2 := i - ri * 36). set (gi := i2 / 6).
+          assert (Hi : i < 216) by (subst i; lia).
+          assert (Hri : ri < 6) by (subst ri; apply N.div_lt_upper_bound; lia).
+          assert (Hi2 : i2 < 36).
+          { subst i2 ri. pose proof (N.mod_eq i 36 ltac:(lia)) as E.
+            pose proof (N.mod_lt i 36 ltac:(lia)). lia. }
+          assert (Hgi : gi < 6) by (subst gi; apply N.div_lt_upper_bound; lia).
+          assert (Hbi : i2 - gi * 6 < 6).
+          { subst gi. pose proof (N.mod_eq i2 6 ltac:(lia)) as E.
+            pose proof (N.mod_lt i2 6 ltac:(lia)). lia. }
+          destruct (tab_ok (dt_cube tb) ri) as [r ->]; [lia|]. cbn [bind].
+          destruct (tab_ok (dt_cube tb) gi) as [g ->]; [lia|]. cbn [bind].
+          destruct (tab_ok (dt_cube tb) (i2 - gi * 6)) as [b ->]; [lia|]. cbn [bind].
+          eexists; eexists; split; [reflexivity|cbn; lia].
+        * destruct (N.ltb_spec index 256).
+          -- destruct (tab_ok (dt_greys tb) (index - 232)) as [v ->]; [lia|]. cbn [bind].
+             eexists; eexists; split; [reflexivity|cbn; lia].
+          -- eexists; eexists; split; [reflexivity|cbn; lia].
+    - destruct (k =? 2); [|exists None, r0; split; [reflexivity|cbn; lia]].
+      pose proof (take1_len r0) as L1. destruct (take1 r0) as [a r1]. cbn [snd] in L1.
+      pose proof (take1_len r1) as L2. destruct (take1 r1) as [b r2]. cbn [snd] in L2.
+      pose proof (take1_len r2) as L3. destruct (take1 r2) as [c r3]. cbn [snd] in L3.
+      assert (L4 : (length (snd (if sub then take1 r3 else (None, r3))) <= length r3)%nat)
+        by (destruct sub; [apply take1_len|cbn; lia]).
+      destruct (if sub then take1 r3 else (None, r3)) as [d r4]. cbn [snd] in L4.
+      destruct (onum a), (onum b), (onum c), (onum d); eexists; eexists; (split; [reflexivity|cbn [length]; lia]).
+  Qed.
+
+  Lemma sgr_group_total face g rest :
+    exists f r, sgr_group tb face g rest = Ok (f, r) /\ (length r <= length rest)%nat.
+  Proof.
+    destruct tabs_lengths as (Hc & Hg & Hl).
+    unfold sgr_group.
+    destruct (match split_on 58 g with a0 :: _ => number_decode a0 | [] => None end) as [v|];
+      [|eexists; eexists; split; [reflexivity|lia]].
+    repeat match goal with
+           | |- context [if ?v =? ?k then _ else _] => destruct (v =? k)
+           end;
+      try (eexists; eexists; split; [reflexivity|lia]).
+    (* the three colour commands *)
+    1-3: destruct (negb (has_colon g));
+      [ destruct (sgr_color_total rest false) as (c & r & -> & Hr); cbn [bind];
+        eexists; eexists; split; [reflexivity|exact Hr]
+      | destruct (sgr_color_total (tl (split_on 58 g)) true) as (c & r & -> & Hr); cbn [bind];
+        eexists; eexists; split; [reflexivity|lia] ].
+    (* named colours *)
+    destruct ((30 <=? v) && (v <=? 37)) eqn:E1.
+    { apply andb_prop in E1. destruct E1 as [A B]. apply N.leb_le in A, B.
+      destruct (tab_ok (dt_colors tb) (v - 30)) as [c ->]; [lia|]. cbn [bind].
+      eexists; eexists; split; [reflexivity|lia]. }
+    destruct ((90 <=? v) && (v <=? 97)) eqn:E2.
+    { apply andb_prop in E2. destruct E2 as [A B]. apply N.leb_le in A, B.
+      destruct (tab_ok (dt_colors tb) (v - 82)) as [c ->]; [lia|]. cbn [bind].
+      eexists; eexists; split; [reflexivity|lia]. }
+    destruct ((40 <=? v) && (v <=? 48)) eqn:E3.
+    { apply andb_prop in E3. destruct E3 as [A B]. apply N.leb_le in A, B.
+      destruct (tab_ok (dt_colors tb) (v - 40)) as [c ->]; [lia|]. cbn [bind].
+      eexists; eexists; split; [reflexivity|lia]. }
+    destruct ((100 <=? v) && (v <=? 107)) eqn:E4.
+    { apply andb_prop in E4. destruct E4 as [A B]. apply N.leb_le in A, B.
+      destruct (tab_ok (dt_colors tb) (v - 92)) as [c ->]; [lia|]. cbn [bind].
+      eexists; eexists; split; [reflexivity|lia]. }
+    eexists; eexists; split; [reflexivity|lia].
+  Qed.
+
+  Lemma sgr_loop_total fuel : forall face groups,
+    (length groups <= fuel)%nat -> exists f, sgr_loop tb fuel face groups = Ok f.
+  Proof.
+    induction fuel as [|n IH]; intros face groups H.
+    - destruct groups; [eexists; reflexivity|cbn in H; lia].
+    - destruct groups as [|g rest]; [eexists; reflexivity|]. cbn [sgr_loop].
+      destruct (sgr_group_total face g rest) as (f & r & -> & Hr). cbn [bind].
+      apply IH. cbn in H. lia.
+  Qed.
+
+  Theorem sgr_face_total data : exists f, sgr_face tb data = Ok f.
+  Proof. unfold sgr_face. apply sgr_loop_total. lia. Qed.
+
+  Theorem dec_sgr_total data : (3 <= length data)%nat -> exists r, dec_sgr tb data = Ok r.
+  Proof.
+    intros H. unfold dec_sgr. destruct (mid_ok data 2 1) as [body ->]; [lia|]. cbn [bind].
+    destruct (sgr_face_total body) as [f ->]. cbn [bind]. eexists; reflexivity.
+  Qed.
+
+  Theorem dec_report_total data : (7 <= length data)%nat -> exists r, dec_report tb data = Ok r.
+  Proof.
+    intros H. unfold dec_report.
+    destruct (index_ok data 2) as [code ->]; [lia|]. cbn [bind].
+    destruct (mid_ok data 5 2) as [body ->]; [lia|]. cbn [bind].
+    destruct (negb (code =? 49)); [eexists; reflexivity|].
+    destruct (ends_with_m body); [|eexists; reflexivity].
+    destruct (sgr_face_total (removelast body)) as [f ->]. cbn [bind]. eexists; reflexivity.
+  Qed.
+End SgrTotal.
 
 Theorem dec_kitty_image_total data : (5 <= length data)%nat -> exists r, dec_kitty_image data = Ok r.
 Proof.
@@ -148,13 +275,6 @@ Proof.
   destruct (index_ok data (length data - 1)) as [last ->]; [lia|]. cbn [bind].
   destruct (mid_ok data 2 1) as [b1 E1]; [lia|]. destruct (mid_ok data 2 2) as [b2 E2]; [lia|].
   destruct (last =? 7); [rewrite E1|rewrite E2]; cbn [bind]; total_cases.
-Qed.
-
-Theorem dec_report_total data : (7 <= length data)%nat -> exists r, dec_report data = Ok r.
-Proof.
-  intros H. unfold dec_report.
-  destruct (index_ok data 2) as [code ->]; [lia|]. cbn [bind].
-  destruct (mid_ok data 5 2) as [body ->]; [lia|]. total_cases.
 Qed.
 
 Lemma utf8_code_total data : (1 <= length data <= 4)%nat -> exists c, utf8_code data = Ok c.
@@ -249,4 +369,228 @@ Proof.
   exists piece. split; [exact Hin|]. destruct (forallb is_digit piece) eqn:E.
   - split; [reflexivity|]. rewrite (number_decode_digits _ E) in Hd. inversion Hd. reflexivity.
   - rewrite (number_decode_nondigit _ E) in Hd. discriminate.
+Qed.
+
+(* ------------------------------------------------------------------ *)
+(* where the numeric fields of each event come from: always elements of a parameter list
+   (numbers_decode / number_decode, i.e. clamped unbounded decimal values by
+   numbers_decode_values / number_decode_digits), minus one where the protocol is one-based;
+   bit sets are masks of such a value *)
+
+Ltac split_matches H :=
+  repeat match type of H with
+         | context [match ?x with _ => _ end] => destruct x eqn:?; try discriminate
+         end.
+
+Theorem dec_mouse_spec data name mode row col :
+  dec_mouse data = Ok (RSome (PMouse name mode row col)) ->
+  exists body e rest last,
+    mid data 3 1 = Ok body /\ numbers_decode body 59 = e :: (col + 1) :: (row + 1) :: rest /\
+    index data (length data - 1) = Ok last /\
+    mode = (let m := N.land (N.land (N.shiftr e 2) 7) 511 in if last =? 77 then N.lor m 256 else m).
+Proof.
+  unfold dec_mouse. destruct (mid data 3 1) as [body| | |]; cbn [bind]; try discriminate.
+  destruct (numbers_decode body 59) as [|e [|c [|r rest]]] eqn:En; try discriminate.
+  destruct (checked_sub1 c) as [col'|] eqn:Ec; [|discriminate].
+  destruct (checked_sub1 r) as [row'|] eqn:Er; [|discriminate].
+  destruct (index data (length data - 1)) as [last| | |]; cbn [bind]; try discriminate.
+  intros H. apply checked_sub1_spec in Ec, Er. subst c r.
+  exists body, e, rest, last. split; [reflexivity|].
+  assert (col' = col /\ row' = row /\
+          mode = (let m := N.land (N.land (N.shiftr e 2) 7) 511 in if last =? 77 then N.lor m 256 else m))
+    as (-> & -> & ->) by (injection H; intros; subst; auto).
+  split; [exact En|]. split; reflexivity.
+Qed.
+
+Theorem dec_termsize_spec data a b c d :
+  dec_termsize data = Ok (RSome (PSize a b c d)) ->
+  exists p0 cell pix more cb pb r1 r2,
+    split_on 27 data = p0 :: cell :: pix :: more /\
+    mid cell 3 1 = Ok cb /\ numbers_decode cb 59 = a :: b :: r1 /\
+    mid pix 3 1 = Ok pb /\ numbers_decode pb 59 = c :: d :: r2.
+Proof.
+  unfold dec_termsize. destruct (split_on 27 data) as [|p0 [|cell rest]]; try discriminate.
+  destruct (mid cell 3 1) as [cb| | |] eqn:Mc; cbn [bind]; try discriminate.
+  destruct (numbers_decode cb 59) as [|ch [|cw r1]] eqn:E1; try discriminate.
+  destruct rest as [|pix more]; [discriminate|].
+  destruct (mid pix 3 1) as [pb| | |] eqn:Mp; cbn [bind]; try discriminate.
+  destruct (numbers_decode pb 59) as [|ph [|pw r2]] eqn:E2; try discriminate.
+  intros H; inversion H; subst. exists p0, cell, pix, more, cb, pb, r1, r2.
+  split; [reflexivity|]. split; [exact Mc|]. split; [exact E1|]. split; [exact Mp|exact E2].
+Qed.
+
+Theorem dec_keylevel_spec data n :
+  dec_kitty_keyboard data = Ok (RSome (PKeyLevel n)) ->
+  exists rest, mid data 2 1 = Ok (63 :: rest) /\ number_decode rest = Some n.
+Proof.
+  unfold dec_kitty_keyboard. destruct (mid data 2 1) as [body| | |]; cbn [bind]; try discriminate.
+  destruct body as [|b0 rest].
+  - intros H. vm_compute in H. discriminate.
+  - destruct (N.eq_dec b0 63) as [->|Hne].
+    + destruct (number_decode rest) as [l|] eqn:E; [|discriminate].
+      intros H; inversion H; subst. exists rest. split; [reflexivity|exact E].
+    + assert (forall (A : Type) (x y : A), match b0 with 63 => x | _ => y end = y) as E.
+      { intros A x y. destruct b0 as [|p]; [reflexivity|].
+        do 6 (destruct p as [p|p|]; try reflexivity). exfalso. apply Hne. reflexivity. }
+      rewrite E. intros H. split_matches H; discriminate.
+Qed.
+
+(* keyboard_decode_key: function keys are an offset of the code, nothing is truncated *)
+Theorem keyboard_key_spec code kind arg :
+  keyboard_key code = Some (kind, arg) ->
+  (kind = 0 /\ code = 27) \/ (kind = 1 /\ code = 13) \/ (kind = 2 /\ code = 9) \/ (kind = 3 /\ code = 127) \/
+  (kind = 4 /\ 57376 <= code <= 57398 /\ arg = code - 57376 + 13) \/
+  (kind = 5 /\ arg = code /\ scalar_ok code = true).
+Proof.
+  unfold keyboard_key.
+  destruct (N.eqb_spec code 27) as [E|_].
+  { intros H; inversion H; subst. left. split; reflexivity. }
+  destruct (N.eqb_spec code 13) as [E|_].
+  { intros H; inversion H; subst. right; left. split; reflexivity. }
+  destruct (N.eqb_spec code 9) as [E|_].
+  { intros H; inversion H; subst. right; right; left. split; reflexivity. }
+  destruct (N.eqb_spec code 127) as [E|_].
+  { intros H; inversion H; subst. right; right; right; left. split; reflexivity. }
+  destruct ((57376 <=? code) && (code <=? 57398)) eqn:EF.
+  - intros H; inversion H; subst. apply andb_prop in EF. destruct EF as [A B]. apply N.leb_le in A, B.
+    right; right; right; right; left. repeat split; assumption.
+  - destruct ((code <=? 4294967295) && negb ((57344 <=? code) && (code <=? 63743))); [|discriminate].
+    unfold char_from_u32. destruct (scalar_ok code) eqn:Es; [|discriminate].
+    intros H; inversion H; subst. right; right; right; right; right. repeat split; try exact Es.
+Qed.
+
+Theorem dec_devattrs_spec data l :
+  dec_devattrs data = Ok (RSome (PDevAttrs l)) ->
+  exists body, mid data 3 1 = Ok body /\ l = to_set (filter (fun v => 0 <? v) (numbers_decode body 59)).
+Proof.
+  unfold dec_devattrs. destruct (mid data 3 1) as [body| | |]; cbn [bind]; try discriminate.
+  intros H; inversion H; subst. exists body. split; reflexivity.
+Qed.
+
+(* kitty image: id and placement are the decoded values of the `i` / `p` keys *)
+Lemma kitty_fields_spec kvs : forall id pl id' pl',
+  kitty_fields kvs id pl = Some (id', pl') ->
+  (id' = id \/ exists v, In ([105], v) kvs /\ number_decode v = Some id') /\
+  (pl' = pl \/ exists v n, In ([112], v) kvs /\ number_decode v = Some n /\ pl' = Some n).
+Proof.
+  induction kvs as [|[k v] r IH]; intros id pl id' pl' H; cbn [kitty_fields] in H.
+  - inversion H; subst. split; left; reflexivity.
+  - destruct (match k with [105] => true | _ => false end) eqn:Ki.
+    + destruct (number_decode v) as [n|] eqn:En; [|discriminate].
+      assert (k = [105]) as -> by (destruct k as [|a [|? ?]]; try discriminate;
+        destruct a as [|p]; try discriminate; do 7 (destruct p as [p|p|]; try discriminate); reflexivity).
+      destruct (IH _ _ _ _ H) as [[->|(v' & Hin & Hv)] Hp]; split.
+      * right. exists v. split; [left; reflexivity|exact En].
+      * destruct Hp as [->|(v2 & n2 & Hin2 & A & B)]; [left; reflexivity|right; exists v2, n2; repeat split; auto; right; exact Hin2].
+      * right. exists v'. split; [right; exact Hin|exact Hv].
+      * destruct Hp as [->|(v2 & n2 & Hin2 & A & B)]; [left; reflexivity|right; exists v2, n2; repeat split; auto; right; exact Hin2].
+    + destruct (match k with [112] => true | _ => false end) eqn:Kp.
+      * destruct (number_decode v) as [n|] eqn:En; [|discriminate].
+        assert (k = [112]) as -> by (destruct k as [|a [|? ?]]; try discriminate;
+          destruct a as [|p]; try discriminate; do 7 (destruct p as [p|p|]; try discriminate); reflexivity).
+        destruct (IH _ _ _ _ H) as [Hi Hp]. split.
+        -- destruct Hi as [->|(v' & Hin & Hv)]; [left; reflexivity|right; exists v'; split; [right; exact Hin|exact Hv]].
+        -- destruct Hp as [->|(v2 & n2 & Hin2 & A & B)];
+             [right; exists v, n; repeat split; auto; left; reflexivity
+             |right; exists v2, n2; repeat split; auto; right; exact Hin2].
+      * destruct (IH _ _ _ _ H) as [Hi Hp]. split.
+        -- destruct Hi as [->|(v' & Hin & Hv)]; [left; reflexivity|right; exists v'; split; [right; exact Hin|exact Hv]].
+        -- destruct Hp as [->|(v2 & n2 & Hin2 & A & B)]; [left; reflexivity|right; exists v2, n2; repeat split; auto; right; exact Hin2].
+Qed.
+
+Theorem dec_kitty_image_spec data id pl err :
+  dec_kitty_image data = Ok (RSome (PKitty id pl err)) ->
+  exists body, mid data 3 2 = Ok body /\
+    let kvs := key_value_decode 44 (fst (split_first 59 body)) in
+    (id = 0 \/ exists v, In ([105], v) kvs /\ number_decode v = Some id) /\
+    (pl = None \/ exists v n, In ([112], v) kvs /\ number_decode v = Some n /\ pl = Some n).
+Proof.
+  unfold dec_kitty_image. destruct (mid data 3 2) as [body| | |]; cbn [bind]; try discriminate.
+  destruct (split_first 59 body) as [head msg] eqn:Es.
+  destruct (kitty_fields (key_value_decode 44 head) 0 None) as [[id' pl']|] eqn:E; [|discriminate].
+  destruct msg as [m|]; [|discriminate]. intros H; inversion H; subst.
+  exists body. split; [reflexivity|]. rewrite Es. cbn [fst]. apply (kitty_fields_spec _ _ _ _ _ E).
+Qed.
+
+(* OSC 4: the palette index is the decoded second field *)
+Theorem dec_osc_palette_spec data idx r :
+  dec_osc data = Ok r -> (r = RSome (PColor 2 idx) \/ r = RExt (PColor 2 idx)) ->
+  exists body a0 a1 rest, split_on 59 body = a0 :: a1 :: rest /\ number_decode a0 = Some 4 /\ number_decode a1 = Some idx.
+Proof.
+  unfold dec_osc. destruct (index data (length data - 1)) as [last| | |]; cbn [bind]; try discriminate.
+  destruct (if last =? 7 then mid data 2 1 else mid data 2 2) as [body| | |]; cbn [bind]; try discriminate.
+  destruct (split_on 59 body) as [|a0 args] eqn:Es; [intros H [E|E]; subst; discriminate|].
+  destruct (number_decode a0) as [id|] eqn:E0; [|intros H [E|E]; subst; discriminate].
+  destruct (N.eqb_spec id 10).
+  { destruct args as [|t ?]; [|destruct (utf8_valid t)]; intros H [E|E]; subst; inversion H. }
+  destruct (N.eqb_spec id 11).
+  { destruct args as [|t ?]; [|destruct (utf8_valid t)]; intros H [E|E]; subst; inversion H. }
+  destruct (N.eqb_spec id 4); [|intros H [E|E]; subst; discriminate].
+  destruct args as [|a1 rest]; [intros H [E|E]; subst; discriminate|].
+  destruct (number_decode a1) as [i|] eqn:E1; [|intros H [E|E]; subst; discriminate].
+  destruct rest as [|t more]; [intros H [E|E]; subst; discriminate|].
+  destruct (utf8_valid t); intros H [E|E]; subst; inversion H; subst.
+  exists body, a0, a1, (t :: more). repeat split; assumption.
+Qed.
+
+(* kitty keyboard key: the key comes from the first number of the first field (1 when there is none),
+   the modifiers are the bit set (m - 1) & 511 of the first number m of the second field.  KeyMod is a
+   set of nine flags (KeyMod::from_bits keeps the known bits, src/keys.rs): bits above are dropped by
+   design, for 2^32 + 1 as for 1025 — a mask, not an arithmetic wrap. *)
+Theorem dec_key_spec data kind arg mode :
+  dec_kitty_keyboard data = Ok (RSome (PKey kind arg mode)) ->
+  exists body codes fields,
+    mid data 2 1 = Ok body /\ split_on 59 body = codes :: fields /\
+    keyboard_key (match numbers_decode codes 58 with c :: _ => c | [] => 1 end) = Some (kind, arg) /\
+    mode = match fields with
+           | [] => 0
+           | modes :: _ => match numbers_decode modes 58 with
+                           | m :: _ => if 1 <? m then N.land (m - 1) 511 else 0
+                           | [] => 0
+                           end
+           end.
+Proof.
+  unfold dec_kitty_keyboard. destruct (mid data 2 1) as [body| | |]; cbn [bind]; try discriminate.
+  assert (Hgen : forall body,
+    match split_on 59 body with
+    | [] => Ok RNone
+    | codes :: fields =>
+        let code := match numbers_decode codes 58 with c :: _ => c | [] => 1 end in
+        match keyboard_key code with
+        | None => Ok RNone
+        | Some (kind, arg) =>
+            match fields with
+            | [] => Ok (RSome (PKey kind arg 0))
+            | modes :: _ =>
+                let ms := numbers_decode modes 58 in
+                let mode := match ms with m :: _ => if 1 <? m then N.land (m - 1) 511 else 0 | [] => 0 end in
+                let event_type := match ms with _ :: t :: _ => t | _ => 0 end in
+                if event_type =? 0 then Ok (RSome (PKey kind arg mode)) else Ok RNone
+            end
+        end
+    end = Ok (RSome (PKey kind arg mode)) ->
+    exists codes fields, split_on 59 body = codes :: fields /\
+      keyboard_key (match numbers_decode codes 58 with c :: _ => c | [] => 1 end) = Some (kind, arg) /\
+      mode = match fields with
+             | [] => 0
+             | modes :: _ => match numbers_decode modes 58 with
+                             | m :: _ => if 1 <? m then N.land (m - 1) 511 else 0
+                             | [] => 0
+                             end
+             end).
+  { intros bd. destruct (split_on 59 bd) as [|codes fields]; [discriminate|]. cbv zeta.
+    destruct (keyboard_key (match numbers_decode codes 58 with c :: _ => c | [] => 1 end)) as [[k a]|] eqn:Ek; [|discriminate].
+    destruct fields as [|modes more].
+    - intros H; inversion H; subst. exists codes, []. repeat split. exact Ek.
+    - destruct (match numbers_decode modes 58 with _ :: t :: _ => t | _ => 0 end =? 0); [|discriminate].
+      intros H; inversion H; subst. exists codes, (modes :: more). repeat split. exact Ek. }
+  destruct body as [|b0 rest].
+  - intros H. destruct (Hgen [] H) as (codes & fields & A & B & C). exists [], codes, fields. repeat split; assumption.
+  - destruct (N.eq_dec b0 63) as [->|Hne].
+    + destruct (number_decode rest); discriminate.
+    + assert (forall (A : Type) (x y : A), match b0 with 63 => x | _ => y end = y) as E.
+      { intros A x y. destruct b0 as [|p]; [reflexivity|].
+        do 6 (destruct p as [p|p|]; try reflexivity). exfalso. apply Hne. reflexivity. }
+      rewrite E. intros H. destruct (Hgen (b0 :: rest) H) as (codes & fields & A & B & C).
+      exists (b0 :: rest), codes, fields. repeat split; assumption.
 Qed.
